@@ -3,7 +3,8 @@
 proof:  PPLV.Props.C01Conv (stage 3: soundness, exact saturation matrix, span facts, simplify_sound) and
         PPLV.Props.C01ConvComplete (stage 4: COMPLETENESS of conversion - the Double Description lemma with the
         adjacency criterion and both quick tests, by induction over the main loop; "empty" reports of minimize
-        are right; the rows simplify drops are redundant) over the code-shaped model
+        are right) and PPLV.Props.C01ConvMinimal (simplify drops only redundant rows, minimize returns the same
+        set in minimal form: gauss echelon facts proved) over the code-shaped model
         lean/PPLV/Conv/{Model,Simplify}.lean of Polyhedron::conversion / simplify / minimize / add_and_minimize
         (static templates of src/Polyhedron_{conversion,simplify,minimize}_templates.hh).
 tie:    harness/c01_conv.cc calls the REAL static members on seeded systems (both directions, C and NNC,
@@ -17,7 +18,7 @@ no-failing-input-found); a failed property check on the real output is a VIOLATI
 import collections, concurrent.futures as cf, hashlib, os, shutil
 from .common import BUILD
 
-PROPS = ["PPLV.Props.C01Conv", "PPLV.Props.C01ConvComplete"]
+PROPS = ["PPLV.Props.C01Conv", "PPLV.Props.C01ConvComplete", "PPLV.Props.C01ConvMinimal"]
 
 
 def _split_cases(journal):
@@ -152,10 +153,11 @@ def run(ctx):
         "double-description engine: completeness of conversion (dest generates the whole cone; adjacency criterion and both quick "
         "tests) is PROVED for the model (Props/C01ConvComplete) under: no dimension_type overflow (num_columns, number of source rows "
         "< 2^64), and for the incremental entry (add_and_minimize) the invariant CExtra on the pair handed in; the per-run K1 deciders "
-        "checkDD / equivB on the real output stay in place (they certify the real run, the theorems the model); the rows simplify drops are proved redundant under two "
-        "assumed facts about the echelon form of gauss (simplify_drops_only_redundant_partial: rank < num_columns, no zero pivot in "
-        "back_substitute = the code's own assertion); NOT proved: that no redundant row REMAINS after simplify (minimality of the "
-        "simplified system)",
+        "checkDD / equivB on the real output stay in place (they certify the real run, the theorems the model); simplify / minimize (Props/C01ConvMinimal): the rows dropped are "
+        "redundant (gauss echelon form, rank < num_columns because some generator is not the zero row, no zero pivot in "
+        "back_substitute: all proved), no inequality returned is implied by the other rows returned, no ray returned is generated by "
+        "the lines and the other rays; NOT proved: the generator-to-constraint call minimize(false, ...) is the same conversion on "
+        "swapped arguments (the conversion theorems apply; its empty/point clauses are specific to con_to_gen)",
     ]
     shutil.rmtree(wd, ignore_errors=True)
     return broken
